@@ -6,4 +6,12 @@ CHECKS = {
    technique="exhaustive enumeration of structural input patterns (box/start/minimiser letters x family x Hessian x memory), every case executed on the real solver",
    text="Every combination of per-variable box/start/minimiser letters for n<=2 (quick) and n<=3 plus tilings to n=12 (thorough), for 3 convex families, 3 Hessians, several memory sizes, is run through the real minimize_lbfgsb and the KKT residual is recomputed by the harness. Exhaustive within the stated alphabets; silent about values outside them.",
    note="alphabets of lbv/families.py stand for the continuum; NumPy/SciPy trusted; threshold = max(100*gtol, 30*sqrt(eps*|f|*L))"),
+ "C08": dict(engine="E6 component enumerator + interception", level="exploration", ref="DESIGN.md 4/C08",
+   technique="exhaustive enumeration of structural inputs (bound letter x position x gradient sign/zero/tie x memory contents) to the real get_cauchy_point, compared with a dense reference on every input",
+   text="All n<=3 combinations of box letter, position, gradient letter (including zeros and tied breakpoints) and 6 memory contents, tilings to n=10, and every input the real solver hands to the routine on the C01 n=2 runs, are fed to the real get_cauchy_point; result compared with a dense piecewise-quadratic search. Exhaustive within the alphabet.",
+   note="dense BFGS recursion trusted as the model; 1e-9 relative; inputs whose gradient has components below 1e-10*|g|_inf are accepted when exact for the gradient with those components zeroed (backward error)"),
+ "C09": dict(engine="E6 component enumerator + interception", level="exploration", ref="DESIGN.md 4/C09",
+   technique="exhaustive enumeration of structural inputs to the real subspace_minimization (fed the reference Cauchy point), compared with a dense box-truncated Newton reference on every input",
+   text="Same enumeration as C08; the real subspace_minimization receives the reference Cauchy point so that verdicts are independent of C08; every free/active partition for n<=3 occurs and is counted.",
+   note="dense BFGS recursion trusted; 1e-8 relative"),
 }
